@@ -29,6 +29,9 @@ class Simple(object):
 
     def replay(self, path):
         cfgname = json.load(open(path))["config"]
+        if cfgname.endswith("+huge"):
+            import huge
+            return rcrun.replay_file(self.prop, path, lambda cfg: huge.replay_bin(cfg))
         allc = {c.name: c for c in self.cfgs_fn("thorough") + self.cfgs_fn("quick")}
         b = dict(self.bins([allc[cfgname]]))
         return rcrun.replay_file(self.prop, path, lambda cfg: b[cfg])
